@@ -2,6 +2,7 @@ import FsutilModel.MetaOnly
 import FsutilModel.Buffer
 import FsutilModel.Model.MetaOnlyB
 import FsutilModel.MetaOnlyBProof
+import FsutilModel.Lemmas.C19Fwd
 /-! # C19 — Metadata-only transfer -/
 namespace Fsm.C19
 
@@ -38,5 +39,34 @@ theorem ids_are_stat_indices_bytes_partial (selected : Path → Bool) (es : List
     ∀ p n, (p, n) ∈ (metaRun false selected es).files → ∃ e, es[n]? = some e ∧ e.path = p := by
   have := metaRun_idInv false selected es [] {} ⟨rfl, by intro p n h; simp at h⟩ (fun e he => Or.inr (h e he))
   simpa [metaRun] using this.ok
+
+/-- The listing holds, in stream order, every announced entry but the listing file's own name - for every stream and selector,
+with the counter repaired or not. -/
+theorem listing_is_stream_minus_own_name (fixed : Bool) (selected : Path → Bool) (es : List StatE) :
+    (metaRun fixed selected es).listing = es.filter (fun e => e.path ≠ metaNameB) :=
+  C19F.listing_eq fixed selected es
+
+/-- The pending-ancestor stack replays exactly what is needed: for every stream that is canonical once the listing name is
+taken out (depth first, a directory before what is below it, one entry per path, the parent of an entry is its nearest announced
+ancestor - `C19F.Canon`, the shape the validator enforces and `C19F.mcanonB` decides) and every selector, what is handed to
+the change computation is the selected entries and the directories above them, in stream order, each once. -/
+theorem forwarded_is_selected_plus_ancestors (fixed : Bool) (selected : Path → Bool) (es : List StatE)
+    (hC : C19F.Canon (es.filter (fun e => e.path ≠ metaNameB))) :
+    (metaRun fixed selected es).forwarded = specForwarded selected es :=
+  C19F.forwarded_eq_spec fixed selected es hC
+
+/-- the premise is decidable; the driver evaluates this checker on every stream a real sender produced -/
+theorem canonical_stream_check_sound (l : List StatE) (h : C19F.mcanonB l = true) : C19F.Canon l :=
+  C19F.mcanonB_sound l h
+
+/-- the premise is met by a stream with a nested selection and a listing-name entry, and the replay is not trivial there -/
+example :
+    let d (p : Path) : StatE := ⟨p, modeDir ||| 493, 0, 0, 0, 0, [], 0, 0, []⟩
+    let f (p : Path) : StatE := ⟨p, 420, 0, 0, 1, 0, [], 0, 0, []⟩
+    -- .fsutil-metadata, a/, a/b/, a/b/c (selected), a/d, e
+    let es := [f metaNameB, d [97], d [97, 47, 98], f [97, 47, 98, 47, 99], f [97, 47, 100], f [101]]
+    C19F.mcanonB (es.filter (fun e => e.path ≠ metaNameB)) = true ∧
+    (metaRun true (fun p => p == [97, 47, 98, 47, 99]) es).forwarded = [d [97], d [97, 47, 98], f [97, 47, 98, 47, 99]] := by
+  decide
 
 end Fsm.C19
